@@ -13,6 +13,7 @@ C04 — No data races: what happened before fulfilment is visible after it.
 -/
 import YaclibModel.Mem.MP
 import YaclibModel.Mem.RC
+import YaclibModel.Mem.Lock
 import YaclibModel.Model.OrdersCheck
 
 namespace Yaclib.Props.C04
@@ -44,6 +45,15 @@ theorem relaxed_decrement_races : ∃ p, RC.PReach .rlx .acq 2 p ∧ p.s.race = 
 
 /-- defect D9 of the pinned tree, at model level: the relaxed `GetRef()` guard admits a race (fixed by e536ea2) -/
 theorem relaxed_guard_races : ∃ p, RC.PReach .rel .rlx 2 p ∧ p.s.race = true := RC.rc_relaxed_guard_races
+
+/-- consecutive critical sections of a lock built on one word (Spinlock, the coroutine Mutex' fast path, the
+    strand's activation token) are ordered by happens-before: acquire when taking, release when letting go;
+    any number of threads and rounds, spinning RMWs, failed attempts and stale peeks; store or RMW release -/
+theorem critical_sections_ordered {oAcq oRel : Ord} {rmwRel : Bool} (hacq : oAcq.hasAcq = true) (hrel : oRel.hasRel = true)
+    {p : Lock.PState} (h : Lock.PReach oAcq oRel rmwRel p) : p.s.race = false := Lock.lock_race_free hacq hrel h
+
+theorem relaxed_unlock_races : ∃ p, Lock.PReach .acq .rlx false p ∧ p.s.race = true := Lock.lock_relaxed_release_races
+theorem relaxed_lock_races : ∃ p, Lock.PReach .rlx .rel false p ∧ p.s.race = true := Lock.lock_relaxed_acquire_races
 
 /-! ### the tie: every atomic site of the source has a role and (except the known ones) a sufficient order -/
 
